@@ -1382,6 +1382,40 @@ pub fn compose_https_join_authority(base: &Https, path: &[u8])
 // ================================================================================================
 // vacuity guards: the invariants and relations are inhabited
 // ================================================================================================
+// ---- C14: resolving a manifest entry against the publication point -----------------------------------------------
+//@include shared/mft_vocab.v.rs
+/// A file name accepted by FileAndHash::validate_file_name (== valid_mft_name, proved in unit mft_name) satisfies
+/// the Ok-condition of the join contract proved above (`r is Ok <==> path is empty || (all_permitted && path_ok)`),
+/// so `base.join(name).unwrap()` in ManifestContent::iter_uris cannot fail; the joined text is the base as a
+/// directory followed by the name, which contains no further '/': the URI lies DIRECTLY inside the base directory.
+pub proof fn lemma_mft_name_joins(base: Rsync, s: Seq<u8>)
+    requires base.wf(), valid_mft_name(s),
+    ensures
+        s.len() >= 5, all_permitted(s), path_ok(s),
+        forall|i: int| 0 <= i < s.len() ==> s[i] != 0x2f,
+        // for the value the join contract describes (bytes == dir(base) + s): it is beneath base and its
+        // last segment is the whole name
+        parent_of_b(base.bytes@, base.module_start as int, dir(base.bytes@) + s),
+        last_seg_at(dir(base.bytes@) + s, dir(base.bytes@).len() as int),
+{
+    let k = choose|k: int| shape(s, k) && is_alpha(s[k + 1]) && is_alpha(s[k + 2]) && is_alpha(s[k + 3]);
+    assert forall|i: int| 0 <= i < s.len() implies s[i] != 0x2f && permitted(#[trigger] s[i]) by {
+        if i < k { assert(stem_char(s[i])); }
+    }
+    assert(stem_char(s[0]));
+    // no empty segment, no dot segment: there is no '/' at all and the first octet is not a dot
+    assert(no_empty_seg(s, 0));
+    assert forall|i: int| 0 <= i < s.len() implies !#[trigger] dot_seg_at(s, 0, i) by {
+        if seg_start(s, 0, i) { assert(i == 0); }
+    }
+    let d = dir(base.bytes@);
+    let j = d + s;
+    assert(forall|i: int| 0 <= i < d.len() ==> j[i] == d[i]);
+    assert(j.last() == s.last());
+    assert(strip_end(j) == j.len());
+    assert forall|i: int| d.len() <= i < j.len() implies #[trigger] j[i] != 0x2f by { assert(j[i] == s[i - d.len()]); }
+}
+
 proof fn reach_rsync() {
     // "rsync://h/m/a" and its parent "rsync://h/m/"
     let c = seq![0x72u8, 0x73, 0x79, 0x6e, 0x63, 0x3a, 0x2f, 0x2f, 0x68, 0x2f, 0x6d, 0x2f, 0x61];
